@@ -182,6 +182,23 @@ func ReleasedBad(b []byte) []byte {
 	return buf[:n]
 }
 
+type sink interface{ Write([]byte) (int, error) }
+
+func UseAfterReleaseGood(w sink, b []byte) (int, error) {
+	buf := make([]byte, len(b))
+	copy(buf, b)
+	n, err := w.Write(buf)
+	pool.Put(&buf)
+	return n, err
+}
+
+func UseAfterReleaseBad(w sink, b []byte) (int, error) {
+	buf := make([]byte, len(b))
+	copy(buf, b)
+	pool.Put(&buf)
+	return w.Write(buf)
+}
+
 // ---- MUSTEXEC controls (every iteration that sees an empty entry deletes it)
 
 func SweepGood(m map[string][]int, seen map[string]bool) {
